@@ -937,14 +937,15 @@ Proof.
   set (b1 := buf_grow_for_read b0 (h_total h - off)).
   destruct (grow_for_read_props b0 (h_total h - off) Hmin) as [Hmin1 Hmax1]. fold b1 in Hmin1, Hmax1.
   cbn [b_max b0] in Hmax1.
-  destruct (ro_read_data s HI (h_id h) off (lenN (b_data b1)) e He Ht) as (r & E & Hf & Hr).
+  set (limit := N.min (h_total h - off) (lenN (b_data b1))).
+  destruct (ro_read_data s HI (h_id h) off limit e He Ht) as (r & E & Hf & Hr).
   rewrite E.
   destruct r as [got|k| |]; try contradiction.
   - destruct (Hr got eq_refl) as [Hlen HB]. clear Hr.
     assert (Hlen' : lenN got = N.min (h_total h - off) (lenN (b_data b1))).
-    { rewrite Hlen. destruct (N.leb_spec (d_len e) off); lia. }
+    { rewrite Hlen. subst limit. destruct (N.leb_spec (d_len e) off); lia. }
     clear Hlen.
-    destruct (N.ltb_spec (lenN (b_data b1)) (lenN got)); [lia|].
+    destruct (N.ltb_spec limit (lenN got)); [subst limit; lia|].
     eexists _, _. split; [reflexivity|]. split; [exact I|].
     cbn [h_id h_buf b_cap b_pos].
     split; [|split; [reflexivity|]].
